@@ -115,9 +115,6 @@ def persistEdge (mem : G) (disk : G) (id : Nat) : G :=
   | some e => { disk with edges := disk.edges.put id e }
   | none => disk
 
-/-- The durable image of a returned whole entity is **the state it has when the statement
-ends**, however many rows (or columns of one row) return it: `retN` / `retE` may repeat an id,
-every occurrence stores the same final state. -/
 /-- the defective variant "an id already stored is a property update": endpoints of the stored
 record are kept, only the opaque content is replaced -/
 def persistEdgeKeepEndpoints (mem : G) (disk : G) (id : Nat) : G :=
@@ -126,6 +123,9 @@ def persistEdgeKeepEndpoints (mem : G) (disk : G) (id : Nat) : G :=
   | some e, none => { disk with edges := disk.edges.put id e }
   | none, _ => disk
 
+/-- The durable image of a returned whole entity is **the state it has when the statement
+ends**, however many rows (or columns of one row) return it: `retN` / `retE` may repeat an id,
+every occurrence stores the same final state. -/
 def persistReturned (mem disk : G) (retN retE : List Nat) : G :=
   retE.foldl (persistEdge mem) (retN.foldl (persistNode mem) disk)
 
